@@ -386,11 +386,21 @@ def main():
             print(str(e))
             sys.exit(2)
     known = [k for k in load_known() if k.get('property') == prop and k.get('status', 'known') == 'known']
-    known_keys = {k['key']: k for k in known}
+    known_keys = {k['key']: k for k in known if not k.get('site')}
+    # a finding may also be identified by its site (rule|function|operation) alone, so that rewriting the
+    # offending expression does not turn it into a "new" violation; at most `count` findings per site entry
+    known_sites = [k for k in known if k.get('site')]
+    site_used = {}
     matched = []
     violations = []
     for f in rep.findings:
         if f.key in known_keys:
+            matched.append(f)
+            continue
+        ent = next((k for k in known_sites if f.key.startswith(k['key'])), None)
+        if ent is not None and site_used.get(ent['key'], 0) < int(ent.get('count', 1)):
+            site_used[ent['key']] = site_used.get(ent['key'], 0) + 1
+            known_keys[f.key] = ent
             matched.append(f)
         else:
             violations.append(f)
